@@ -577,6 +577,108 @@ example :
       = [.err .checkError, .ok (.src (.prefaultOk true)), .ok (.src (.dflt false)), .ok .inp, .err .typeError] := by
   decide
 
+/-! ## The last clause: non-nil inputs and the type's own configuration -/
+
+theorem applyAllC_cons {Cfg : Type} (k : Kind) (rule : RefineRule) (zero : Cfg) (s : SchC Cfg) (op : Op) (h : List Op) :
+    applyAllC k rule zero s (op :: h) = applyAllC k rule zero (applyC k rule zero s op) h := rfl
+
+/-- The embedded internals of the derived schema are those of the bare history model: every theorem about
+    `applyAll` (the nil outcome) speaks about the schema with its configuration too. -/
+theorem applyAllC_i {Cfg : Type} (k : Kind) (rule : RefineRule) (zero : Cfg) (h : List Op) : ∀ s : SchC Cfg,
+    (applyAllC k rule zero s h).i = applyAll rule s.i h ∧ (applyAllC k rule zero s h).admitsNil = s.admitsNil := by
+  induction h with
+  | nil => intro s; exact ⟨rfl, rfl⟩
+  | cons op h ih => intro s; rw [applyAllC_cons, applyAll_cons]; exact ih (applyC k rule zero s op)
+
+/-- The configuration after a history: untouched unless one of its calls is a dropping method — then the zero value,
+    whatever came before or after (no modifier restores it). -/
+theorem applyAllC_cfg {Cfg : Type} (k : Kind) (rule : RefineRule) (zero : Cfg) (h : List Op) : ∀ s : SchC Cfg,
+    (applyAllC k rule zero s h).cfg = if h.any (dropsCfg k) then zero else s.cfg := by
+  induction h with
+  | nil => intro s; rfl
+  | cons op h ih =>
+    intro s
+    rw [applyAllC_cons, ih]
+    simp only [List.any_cons, applyC]
+    by_cases h1 : dropsCfg k op = true <;> by_cases h2 : h.any (dropsCfg k) = true <;> simp [h1, h2]
+
+/-- A non-nil input never reaches a modifier branch: `processModifiersCore` answers "not handled" at once
+    (`if !isNilInput(input)`, the first statement — `c03_pmc_structure_as_transcribed`), whatever the modifier state. -/
+theorem processModifiers_nonNil (c : Ctx) (s : Sch) : processModifiersCtx c s .valid = (c, .notHandled) := rfl
+
+/-- So a non-nil input is answered by the type's value parser under the schema's configuration, the context untouched. -/
+theorem ctxStepX_nonNil {Cfg X Y : Type} (validate : Cfg → X → Option Y) (c : Ctx) (s : SchC Cfg) (x : X) :
+    ctxStepX validate c s (some x) =
+      (c, match validate s.cfg x with | some y => .accepted y | none => .rejected) := rfl
+
+/-- The full last clause: whatever the type (its kind of modifier methods `k`), its value parser `validate`, its
+    configuration, the modifier state it starts from and the context, a non-nil input is validated after ANY history
+    of modifier (and check-attaching) calls exactly as before it. (False today for Record and partial Struct:
+    `c03_nonnil_frame_witness_record`, `c03_nonnil_frame_witness_struct`.) -/
+def c03_nonnil_frame_full : Prop :=
+  ∀ (Cfg X Y : Type) (validate : Cfg → X → Option Y) (k : Kind) (rule : RefineRule) (zero : Cfg) (h : List Op)
+    (s : SchC Cfg) (x : X) (c : Ctx),
+    ctxStepX validate c (applyAllC k rule zero s h) (some x) = ctxStepX validate c s (some x)
+
+/-- **C03, last clause.** For every value parser, configuration, start state, context and every history none of whose
+    calls is a configuration-dropping method (`dropsCfg`: today `NonOptional` on Record and on Struct; every history
+    on every other type), a non-nil input yields exactly what the schema without the modifiers yields — verdict and
+    value — and leaves the context as it was. -/
+theorem c03_nonnil_frame {Cfg X Y : Type} (validate : Cfg → X → Option Y) (k : Kind) (rule : RefineRule) (zero : Cfg)
+    (h : List Op) (hk : h.any (dropsCfg k) = false) (s : SchC Cfg) (x : X) (c : Ctx) :
+    ctxStepX validate c (applyAllC k rule zero s h) (some x) = ctxStepX validate c s (some x) := by
+  rw [ctxStepX_nonNil, ctxStepX_nonNil, applyAllC_cfg, hk]; rfl
+
+/-- On every type whose modifier methods carry the configuration the clause holds for every history. -/
+theorem c03_nonnil_frame_plain {Cfg X Y : Type} (validate : Cfg → X → Option Y) (rule : RefineRule) (zero : Cfg)
+    (h : List Op) (s : SchC Cfg) (x : X) (c : Ctx) :
+    ctxStepX validate c (applyAllC .plain rule zero s h) (some x) = ctxStepX validate c s (some x) := by
+  apply c03_nonnil_frame
+  induction h with
+  | nil => rfl
+  | cons op h ih => simp only [List.any_cons, ih, Bool.or_false]; cases op <;> rfl
+
+/-- The nil side of the same schema is the history model's: `c03_history_partial` & co. apply unchanged. -/
+theorem c03_frame_nil_side {Cfg X Y : Type} (validate : Cfg → X → Option Y) (k : Kind) (rule : RefineRule) (zero : Cfg)
+    (h : List Op) (s : SchC Cfg) (c : Ctx) :
+    (ctxStepX validate c (applyAllC k rule zero s h) none).2 =
+      .nilPath (parseBase s.admitsNil (applyAll rule s.i h) .nil) := by
+  obtain ⟨hi, ha⟩ := applyAllC_i k rule zero h s
+  simp only [ctxStepX, step_eq_parseBase, hi, ha]
+
+/-- A record as the witnesses see it: configuration = "is the key schema there", input = "does the key schema admit
+    the input's keys"; the value parser rejects inadmissible keys only while the key schema is there. -/
+def recordValidate (keyed : Bool) (keysAdmitted : Bool) : Option Unit :=
+  if keyed && !keysAdmitted then none else some ()
+
+/-- `Record(Enum("a","b"), Int()).NonOptional().Parse(map[string]int{"a": 50, "zzz": 50})` succeeds where
+    `Record(Enum("a","b"), Int()).Parse(…)` reports the unrecognized key: `NonOptional` rebuilt the internals
+    without `KeyType` (and `Loose`). -/
+theorem c03_nonnil_frame_witness_record : ¬ c03_nonnil_frame_full := by
+  intro hfull
+  have := hfull Bool Bool Unit recordValidate .record .nilableFlag false [.nonOptional] ⟨true, false, {}⟩ false {}
+  revert this; decide
+
+/-- A partial struct likewise: configuration = `IsPartial`, input = "are all fields non-zero and valid"; the parser
+    skips zero fields only while partial. `FromStruct[T]().Partial().NonOptional().Parse(T{})` is rejected where
+    `FromStruct[T]().Partial().Parse(T{})` succeeds. -/
+def structValidate (isPartial : Bool) (allFieldsValid : Bool) : Option Unit :=
+  if isPartial || allFieldsValid then some () else none
+
+theorem c03_nonnil_frame_witness_struct : ¬ c03_nonnil_frame_full := by
+  intro hfull
+  have := hfull Bool Bool Unit structValidate .structp .nilableFlag false [.optional, .nonOptional] ⟨true, false, {}⟩ false {}
+  revert this; decide
+
+/-- Non-vacuity: a clean-or-not history of every other modifier on a record keeps the key schema, and the input that
+    depends on it is still rejected; the nil side of the same schema is the default. -/
+example :
+    (ctxStepX recordValidate {} (applyAllC .record .nilableFlag false ⟨true, false, {}⟩
+        [.optional, .dflt true, .prefaultFn false, .nullish, .refine]) (some false)).2 = .rejected ∧
+    (ctxStepX recordValidate {} (applyAllC .record .nilableFlag false ⟨true, false, {}⟩
+        [.optional, .dflt true, .prefaultFn false, .nullish]) none).2 = .nilPath (.ok (.src (.dflt false))) ∧
+    [Op.optional, .dflt true, .prefaultFn false, .nullish, .refine].any (dropsCfg .record) = false := by decide
+
 /-! ## The regenerated tables (`Gozod/Gen/C03Tables.lean`, go/ast over /repo's working tree on every run)
 
   These are statements about the WHOLE extracted table: an edit of the source that adds a field to ParseContext,
@@ -613,6 +715,22 @@ open Gozod.Gen in
     table's constructors return). -/
 theorem c03_harness_covers_every_schema_type :
     (C03Tables.schemaTypes.all fun t => C03Tables.harnessTypes.contains t.1) = true := by decide
+
+open Gozod.Gen in
+/-- **`dropsCfg` is the code's table**: for EVERY row of the harness table (all 54 schema types and the constructor
+    variants) and every one of the twelve modifier calls, the method — called on the schema as constructed and on its
+    `Optional()` variant — returns a schema lacking a configuration field of its receiver exactly where the model says
+    so (both directions: no unmodelled drop, no modelled drop that the code does not have). The premise of
+    `c03_nonnil_frame`'s hypothesis, over the whole regenerated table. -/
+theorem c03_cfg_drops_as_modelled :
+    (C03Tables.cfgRows.all fun r => C03Tables.modOps.all fun op =>
+      (C03Tables.cfgDrops.any fun d => d.1 == r.1 && d.2.1 == op) == cfgDropModelled r.2 op) = true := by decide
+
+open Gozod.Gen in
+/-- All twelve modifier calls are in the table, and every row's kind is one the model knows. -/
+theorem c03_cfg_table_covers_modifiers :
+    (C03Tables.modOps.all fun op => (modOpOfName op).isSome) = true ∧ C03Tables.modOps.length = 12 ∧
+    (C03Tables.cfgRows.all fun r => r.2 == "plain" || r.2 == "record" || r.2 == "structp") = true := by decide
 
 open Gozod.Gen in
 /-- Non-vacuity: the table is not empty and the format types are in it. -/
